@@ -77,6 +77,10 @@ class LeafNode(TreeNode):
             if cost == 0 and self != node:
                 # distinct values whose string representations coincide (e.g., 1 and "1") are still different
                 cost = 1
+            elif cost != 0 and self == node:
+                # equal values whose string representations differ (e.g., 1 and 1.0, or 0.0 and -0.0) are the same,
+                # exactly as they are when they are compared as elements of a list or values of a mapping
+                cost = 0
             return Match(self, node, cost)
         elif isinstance(node, ContainerNode):
             return Replace(self, node)
